@@ -151,6 +151,12 @@ func StringToNumber(s string) (n int64, f float64, tp NumberType) {
 	} else if s[0] == '-' || s[0] == '+' {
 		i0++
 	}
+	if len(s) > i0 && (s[i0] == '-' || s[i0] == '+') || strings.IndexByte(s, '_') >= 0 {
+		// Only one sign is allowed and no digit separators (strconv would
+		// accept a second sign, and underscores in some float forms)
+		tp = NaN
+		return
+	}
 	var isHex = len(s) >= 2+i0 && s[i0] == '0' && (s[i0+1] == 'x' || s[i0+1] == 'X')
 	var isFloat = isHex && strings.ContainsAny(s, ".pP") || !isHex && strings.ContainsAny(s, ".eE")
 	if isFloat {
